@@ -41,7 +41,7 @@ REQUIRED = ["at_most_once_atomic", "at_most_one_success_atomic", "at_most_one_su
             # round 3: the remaining iam burn handlers as threads (Props/C05Ref.lean)
             "validateNonce_refines_threads", "vp_response_at_most_once_all_schedules", "handleReqObj_refines_thread", "request_object_at_most_once_all_schedules",
             "every_endpoint_refines_its_threads", "any_endpoints_at_most_once_all_schedules",
-            "handlePreAuth_refines_thread", "preauth_at_most_once_all_schedules"]
+            "handlePreAuth_refines_thread", "preauth_at_most_once_all_schedules", "dead_after_burn_all_in_every_schedule"]
 
 
 def oracle(op, line, facts):
@@ -85,7 +85,8 @@ def oracle(op, line, facts):
         # dead after any finished attempt on the same secret (authorization code: also failed attempts), dead after the TTL
         for j, b in enumerate(threads):
             if j != i and b["kind"] == a["kind"] and b["id"] == a["id"] and j in last and i in first and last[j] < first[i] \
-                    and j < len(outs) and not outs[j].startswith("stuck") and b.get("fail") != "del" and (a["kind"] == "code" or outs[j] in ("ok", "mismatch", "post-check")):
+                    and j < len(outs) and not outs[j].startswith("stuck") and b.get("fail") != "del" and (a["kind"] == "code" or outs[j] in ("ok", "mismatch", "post-check") or (a["kind"] == "vpnonce" and outs[j] == "missing-param")):
+                # vpnonce: a burn-all response (missing-param) is an attempt too (dead_after_burn_all_in_every_schedule)
                 bad.append((f"C05:{a['kind']}:{where}:honoured-after-earlier-attempt", f"thread {i} succeeded after thread {j} ({outs[j]}) had finished"))
         if (op.get("ttl") or {}).get(a["kind"], facts.get(TTL_FACT[a["kind"]])) is not None and tfirst.get(i, 0) > ttl(a["kind"]):
             bad.append((f"C05:{a['kind']}:{where}:honoured-after-ttl", f"thread {i} succeeded at t={tfirst[i]} > ttl {ttl(a['kind'])}"))
@@ -268,9 +269,8 @@ def vforms_oracle(op, line, facts):
         c = r["code"]
         if calls is not None:
             cs = calls[j]
-            # the token endpoint looks a code up at most once per request, and an honoured request consumed it itself (Get, then Delete)
-            if cs.count("get:preauth/" + c) > 1:
-                bad.append((f"C05:preauth:{where}:vform-code-read-twice", f"request {j} read pre-authorized code {c!r} {cs.count('get:preauth/' + c)} times: {cs}"))
+            # an honoured request consumed the code itself (Get, then Delete); a second look-up is not a violation by itself: the
+            # call-sequence correspondence reports it
             if a.startswith("200:") and not (("get:preauth/" + c) in cs and ("del:preauth/" + c) in cs[cs.index("get:preauth/" + c) + 1:]):
                 bad.append((f"C05:preauth:{where}:vform-honoured-without-consuming", f"request {j} was honoured; its store calls {cs} do not read and then delete code {c!r}"))
         if a.startswith("200:"):
